@@ -66,6 +66,10 @@ int main(void) {
 #if defined(H_JAR) || defined(H_SAFE)
   u8* b = (u8*)malloc(NN); __CPROVER_assume(b != 0);
   for (u64 i = 0; i < NN; i++) { VP_SET(u8, b[i], "b"); }
+#ifdef PREFIX
+  { const char* pf = PREFIX; u64 pl = 0; for (u64 i = 0; i < NN && pf[i]; i++) { b[i] = (u8)pf[i]; pl = i + 1; }   /* fixed leading text, the rest is arbitrary but holds no further ';' (one attribute) */
+    for (u64 i = 0; i < NN; i++) if (i >= pl) __CPROVER_assume(b[i] != ';'); }
+#endif
   base = b;
 #endif
 #if defined(H_JAR)
@@ -93,6 +97,9 @@ int main(void) {
   VP_SET(u8, date_rejects, "date_rejects");
   _ZN8Pistache4Http6Cookie7fromRawEPKcm(cookie_obj, b, NN);
   int thr = vp_take_exception();
+#ifdef DEBUGX
+  __CPROVER_assert(thr, "DEBUG: always throws");
+#endif
   if (thr) __CPROVER_assert(vp_exc_is(_ZTISt13runtime_error) || vp_exc_is(_ZTISt16invalid_argument), "malformed cookie text is rejected with runtime_error / invalid_argument, nothing else");
   u64 eq = NN; for (u64 i = NN; i > 0; i--) if (b[i - 1] == '=') eq = i - 1;
   if (eq == NN) __CPROVER_assert(thr, "cookie text without '=' is rejected");
